@@ -565,10 +565,11 @@ def main(args=None):
         parser.add_argument(
             "--arena-cache-size",
             type=int,
-            default=384 * 1024,
+            default=None,
             help=(
                 "Set the size of the arena cache memory area, in bytes. If specified, this option overrides the memory"
-                " mode attribute with the same name in a Vela configuration file (default: %(default)s)"
+                " mode attribute with the same name in a Vela configuration file (default: 393216 with the default"
+                " configuration, otherwise the value from the configuration file)"
             ),
         )
         parser.add_argument(
@@ -665,7 +666,7 @@ def main(args=None):
                 accelerator_config=args.accelerator_config,
                 max_blockdep=args.max_block_dependency,
                 verbose_config=args.verbose_config,
-                arena_cache_size=args.arena_cache_size,
+                arena_cache_size=384 * 1024 if args.arena_cache_size is None else args.arena_cache_size,
             )
         else:
             if args.system_config == ArchitectureFeatures.DEFAULT_CONFIG:
